@@ -416,6 +416,14 @@ func RunEngine(t *testing.T, e Engine, seed uint64, thorough bool, resultPath st
 		res.Samples = append(res.Samples, Divergence{Header: cases[0].Header, Ops: cases[0].Ops[:n], Impl: impl[0][:min(n, len(impl[0]))], First: -1})
 	}
 
+	if x, ok := e.(interface{ ExcludedPoints() []string }); ok && replay == nil {
+		res.ExcludedPoints = x.ExcludedPoints()
+	}
+
+	if x, ok := e.(interface{ Notes() []string }); ok {
+		res.Notes = append(res.Notes, x.Notes()...)
+	}
+
 	res.WallS = time.Since(start).Seconds()
 
 	if resultPath != "" {
